@@ -80,7 +80,7 @@ class SpecRegistry:
         return mk(f.decl(*ts), f.resty)
 
     # ---------------------------------------------------------------------------------------------- unfolding
-    def unfold(self, ip, terms, extra_fuel=0):
+    def unfold(self, ip, terms, extra_fuel=0, opaque=()):
         """definitional equations for the recursive spec applications occurring in `terms` (list of z3 exprs)"""
         eqs = []
         seen = {}
@@ -101,7 +101,7 @@ class SpecRegistry:
                 if z3.is_app(x):
                     d = x.decl().name()
                     f = self.by_decl.get(d)
-                    if f is not None and f.kind == 'recursive' and i not in seen:
+                    if f is not None and f.kind == 'recursive' and i not in seen and f.name not in opaque:
                         if not _has_bound_var(x):
                             seen[i] = depth
                             work.append((x, f, depth))
